@@ -89,6 +89,14 @@ FileCounts(Gdec) ==
   IF ~ref.fromtrees THEN {}
   ELSE F("C08.written.lhs_totals", LhsTotals(Gdec, ref.nodecnt)) \cup
        F("C08.written.flow", Flow(Gdec, lex, ref.roots))
+\* with the lexicon embedded, a tag is rewritten by its lexical productions as well: per label, the rules of the
+\* file sum to the constituents with that label plus the tokens with that tag (also when a word is spelled
+\* like a category and its lexical production coincides with a rule)
+FileCountsLig(Gdec) ==
+  IF ~ref.fromtrees THEN {}
+  ELSE F("C08.written.lhs_totals",
+         \A s \in DOMAIN ref.nodecnt \cup {e[2] : e \in DOMAIN lex} :
+            SumOver({g \in DOMAIN Gdec : g.func[1] = s}, LAMBDA g : Gdec[g]) = BagGet(ref.nodecnt, s) + LexTag(lex, s))
 WriteErrs(e) ==
   LET G == SumVert(gram)
       lig == e.lig = "T"
@@ -110,8 +118,8 @@ WriteErrs(e) ==
      F("C09.pmcfg.wellformed", PmcfgWF(e.files.pmcfg)) \cup
      (IF PmcfgWF(e.files.pmcfg) THEN
         F("C09.pmcfg.decodes", DecodePMCFG(e.files.pmcfg) = Gexp) \cup
-        FileCounts(IF lig THEN WithoutLex(DecodePMCFG(e.files.pmcfg), words) ELSE DecodePMCFG(e.files.pmcfg)) \cup
-        (IF lig THEN F("C09.lex_in_grammar",
+        (IF lig THEN FileCountsLig(DecodePMCFG(e.files.pmcfg)) ELSE FileCounts(DecodePMCFG(e.files.pmcfg))) \cup
+        (IF lig /\ words \cap Symbols(DOMAIN G) = {} THEN F("C09.lex_in_grammar",
                        /\ LexFromGram(DecodePMCFG(e.files.pmcfg), words) = lex
                        /\ WithoutLex(DecodePMCFG(e.files.pmcfg), words) = G)
          ELSE {})
@@ -121,7 +129,7 @@ WriteErrs(e) ==
      F("C09.rcg.wellformed", RcgWF(e.files.rcg) /\ \A i \in Idx(e.files.rcg) : RcgVarsOK(e.files.rcg[i])) \cup
      (IF RcgWF(e.files.rcg) /\ \A i \in Idx(e.files.rcg) : RcgVarsOK(e.files.rcg[i])
       THEN F("C09.rcg.decodes", DecodeRCG(Syms, e.files.rcg) = Gexp) \cup
-           FileCounts(IF lig THEN WithoutLex(DecodeRCG(Syms, e.files.rcg), words) ELSE DecodeRCG(Syms, e.files.rcg))
+           (IF lig THEN FileCountsLig(DecodeRCG(Syms, e.files.rcg)) ELSE FileCounts(DecodeRCG(Syms, e.files.rcg)))
       ELSE {}) \cup
      (IF lig THEN {} ELSE F("C09.lex.counts", LexWF(e.files.lex) /\ DecodeLex(e.files.lex) = lex))
 TWrite == /\ IsEvent("write")
